@@ -49,25 +49,38 @@ MutateWhy(G, pre, post) ==
   ELSE "OK"
 
 (* ------------------------------------------------------------------ C13 *)
-(* one result res of inserting ins into host.  Node identity is the node   *)
-(* id.  "res contains the inserted tree": some subtree of res has ins as   *)
-(* a tree prefix with the same ids (Trees!IsTreePrefixIds), i.e. all nodes *)
-(* of ins are there, in the same arrangement; open leaves of ins are holes *)
-(* and may have been expanded, nothing else of ins may differ.             *)
-OccursIn(ins, res) == \E s \in SubtreeSet(res) : s.id = ins.id /\ IsTreePrefixIds(ins, s)
+(* One result res of inserting ins into host.  Node identity is the node   *)
+(* id (as in the implementation: find_node).  Reading of "res contains the *)
+(* inserted tree": the root of ins occurs in res (same id, same label) and *)
+(* the subtree there has ins as a prefix -- every expanded node and every  *)
+(* terminal of ins is there with its id, label and position; an open leaf  *)
+(* of ins is a hole that may have been expanded or filled by a subtree     *)
+(* with the same label (whose root may then carry another id).             *)
+RECURSIVE EmbedsAt(_, _)
+EmbedsAt(pre, post) ==
+  /\ Label(pre) = Label(post)
+  /\ \/ pre.open
+     \/ /\ pre.id = post.id /\ ~post.open /\ Len(pre.ch) = Len(post.ch)
+        /\ \A j \in 1..Len(pre.ch) : EmbedsAt(pre.ch[j], post.ch[j])
+OccursIn(ins, res) == \E s \in SubtreeSet(res) : s.id = ins.id /\ EmbedsAt(ins, s)
+(* nodes of t that are not holes *)
+RECURSIVE SolidNodeSet(_)
+SolidNodeSet(t) == IF t.open THEN {} ELSE { <<t.id, Label(t)>> } \cup UNION { SolidNodeSet(t.ch[j]) : j \in 1..Len(t.ch) }
 InsertStep(G, host, ins, res) ==
   /\ ValidTree(G, res)
   /\ res.nt = host.nt /\ res.n = host.n
   /\ NodeSet(host) \subseteq NodeSet(res)        \* every node of host: same id, same label
-  /\ NodeSet(ins) \subseteq NodeSet(res)         \* every node of ins: same id, same label
-  /\ OccursIn(ins, res)                          \* ... in the same arrangement
+  /\ SolidNodeSet(ins) \subseteq NodeSet(res)    \* every non-hole node of ins: same id, same label
+  /\ OccursIn(ins, res)                          \* ... in the same arrangement, below the root of ins
 InsertWhy(G, host, ins, res) ==
   IF ~ValidTree(G, res) THEN "invalid-tree"
   ELSE IF ~(res.nt = host.nt /\ res.n = host.n) THEN "root-changed"
   ELSE IF ~(NodeSet(host) \subseteq NodeSet(res)) THEN "host-node-lost"
-  ELSE IF ~(NodeSet(ins) \subseteq NodeSet(res)) THEN "inserted-node-lost"
+  ELSE IF ~(SolidNodeSet(ins) \subseteq NodeSet(res)) THEN "inserted-node-lost"
   ELSE IF ~OccursIn(ins, res) THEN "inserted-tree-rearranged"
   ELSE "OK"
+(* diagnostic only: the holes of ins kept their ids as well *)
+HolesKept(ins, res) == NodeSet(ins) \subseteq NodeSet(res)
 
 (* ------------------------------------------------------------------ C14 *)
 (* r = [none |-> TRUE] or [none |-> FALSE, t |-> tree]                     *)
